@@ -41,6 +41,15 @@ MUTANTS = [
  ('render-repetition-range-swapped', 'render', 'component.rs', 'format!("{{{},{}}}", min, max)', 'format!("{{{},{}}}", max, min)', 'fail', 'render.component_plain'),
  ('display-outer-group-kind', 'render', 'regexp.rs', '                    if self.config.is_capturing_group_enabled {\n                        Component::CapturedParenthesizedExpression(\n                            self.ast.to_string(),', '                    if !self.config.is_capturing_group_enabled {\n                        Component::CapturedParenthesizedExpression(\n                            self.ast.to_string(),', 'fail', 'display.assemble'),
  ('display-dollar-before-body', 'render', 'regexp.rs', 'format!("{}{}{}{}", flag, caret, self.ast, dollar_sign)', 'format!("{}{}{}{}", flag, caret, dollar_sign, self.ast)', 'fail', 'display.assemble'),
+ ('format-alt-precedence-nonstrict', 'format', 'format.rs', 'if option.precedence() < expr.precedence() && !option.is_single_codepoint() {', 'if option.precedence() <= expr.precedence() && !option.is_single_codepoint() {', 'fail', 'format.alternation_operand'),
+ ('format-concat-group-kind-flipped', 'format', 'format.rs', '            if it.precedence() < expr.precedence() && !it.is_single_codepoint() {\n                if is_capturing_group_enabled {', '            if it.precedence() < expr.precedence() && !it.is_single_codepoint() {\n                if !is_capturing_group_enabled {', 'fail', 'format.concatenation_operand'),
+ ('format-repetition-never-groups', 'format', 'format.rs', 'if expr1.precedence() < expr.precedence() && !expr1.is_single_codepoint() {', 'if expr1.precedence() < expr.precedence() && expr1.is_single_codepoint() {', 'fail', 'format.repetition'),
+ ('format-class-caret-unescaped', 'format', 'format.rs', "let chars_to_escape = ['[', ']', '\\\\', '-', '^', '$'];", "let chars_to_escape = ['[', ']', '\\\\', '-'];", 'fail', 'format.class_meta_escaped'),
+ ('format-class-dollar-unescaped-benign', 'format', 'format.rs', "let chars_to_escape = ['[', ']', '\\\\', '-', '^', '$'];", "let chars_to_escape = ['[', ']', '\\\\', '-', '^'];", 'pass', ''),
+ ('format-literal-flags-swapped', 'format', 'format.rs', '                        repeated_grapheme.escape_regexp_symbols(\n                            is_non_ascii_char_escaped,\n                            is_astral_code_point_converted_to_surrogate,', '                        repeated_grapheme.escape_regexp_symbols(\n                            is_astral_code_point_converted_to_surrogate,\n                            is_non_ascii_char_escaped,', 'fail', 'format.literal_nested_escape_flags'),
+ ('selfcheck-accepts-no-match', 'format', 'regexp.rs', '.all(|test_case| regex.find_iter(test_case).count() == 1)', '.all(|test_case| regex.find_iter(test_case).count() <= 1)', 'fail', 'selfcheck.exactly_one_match'),
+ ('grapheme-single-char-by-entry-count', 'render', 'grapheme.rs', 'let is_single_char = self.char_count(false) == 1\n            || (self.chars.len() == 1 && self.chars[0].matches(\'\\\\\').count() == 1);', 'let is_single_char = self.chars.len() == 1 && self.chars[0].matches(\'\\\\\').count() <= 1;', 'fail', 'render.grapheme_plain'),
+ ('grapheme-group-kind-flipped', 'render', 'grapheme.rs', '        } else if is_range && !is_single_char {\n            write!(\n                f,\n                "{}{}",\n                if self.is_capturing_group_enabled {', '        } else if is_range && !is_single_char {\n            write!(\n                f,\n                "{}{}",\n                if !self.is_capturing_group_enabled {', 'fail', 'render.grapheme_plain'),
  ('wasm-wrong-field', 'wasm', 'wasm.rs', 'self.builder.config.is_start_anchor_disabled = true;\n        self.clone()', 'self.builder.config.is_end_anchor_disabled = true;\n        self.clone()', 'fail', 'wasm.withoutStartAnchor'),
 ]
 def run(repo, only=None, units=None):
